@@ -6,7 +6,7 @@ SPEC = dict(
     bins=["c14", "c14sbs"],
     props=["C14/Props.v", "C14/SbsProps.v"],
     coq_dir="C14",
-    coq_targets=["C14/Proofs.vo", "C14/SetObs.vo", "C14/SetAfter.vo", "C14/SetDom.vo", "C14/SetRange.vo", "C14/SetRangeU.vo", "C14/SetEq.vo", "C14/SetOrd.vo", "C14/SetL0.vo", "C14/SetL0Proofs.vo", "C14/Examples.vo",
+    coq_targets=["C14/Proofs.vo", "C14/SetObs.vo", "C14/SetAfter.vo", "C14/SetDom.vo", "C14/SetRange.vo", "C14/SetRangeU.vo", "C14/SetEq.vo", "C14/SetOrd.vo", "C14/SetL0.vo", "C14/SetL0Proofs.vo", "C14/ProcessNP.vo", "C14/Examples.vo", "C14/ExamplesNP.vo",
                  "C14/SbsProofs.vo", "C14/SbsSpec.vo", "C14/SbsRoundtrip.vo", "C14/SbsClip.vo", "C14/SbsExamples.vo"],
     allowed_axioms=[],
     level_text=("Codec half: the sparse-bit-set round trip is PROVED IN GENERAL (sbs_roundtrip, sbs_roundtrip_auto: for every sorted set of u32, all four "
@@ -24,8 +24,8 @@ SPEC = dict(
                 "order of the member sequences. RangeSet (unbounded): after any insert sequence the ranges are sorted, disjoint, "
                 "non-adjacent and cover exactly the union of the inserted ranges; intersection = canonical form of the pointwise meet. "
                 "L0: an index-by-index model of the in-place BitSet::process (pages vector + page_map; estimate, compact, resize, "
-                "back-to-front merge, drains) refines the L1 merge: proved unbounded for steps 3-4 from any prepared state (all operators) "
-                "and end to end for union/subtract; for intersect/reversed_subtract end to end only over a complete finite domain (bounded). "
+                "back-to-front merge, drains) refines the L1 merge: proved UNBOUNDED end to end for every operator (union, intersect, subtract, "
+                "reversed_subtract: c14_process_L0_refines_L1), with the representation invariant Inv0 (|page_map| = |pages|, page indices distinct and in range, majors ascending) preserved (c14_process_L0_preserves_inv); the bounded-exhaustive theorem is kept. "
                 "The model is tied to the code on every run: the Rust harness drives the real "
                 "IntSet/RangeSet through the public API (bounded-exhaustive short sequences over the page-edge-rich 11-value domain, random "
                 "long sequences over every Domain impl of read-fonts - u32/u16/u8/GlyphId16/NameId/GlyphId/Tag, each with its own boundary values min, max-1, max - and custom domains; the list of `impl Domain` in the source is audited against the driven list) and coqc evaluates the model on the same sequences, comparing a full "
@@ -34,7 +34,7 @@ SPEC = dict(
                 "discontinuous domains on the implementation alone. Sparse-bit-set codec: see the Sbs theorems."),
     level_note=("Trusted: Coq kernel; the hand-written model coq/C14/Model.v (agreement with read-fonts is checked on every run, not proved); "
                 "the L0 model of BitSet::process (coq/C14/SetL0.v) is not observable through the public API: it is tied to the code by reading "
-                "and to L1 by the refinement theorems (partial, see not_covered), L1 being tied by the correspondence check; the rest of L0 "
+                "and to L1 by the refinement theorem c14_process_L0_refines_L1 (all operators, unbounded), L1 (Model.process, the definition the shards evaluate) being tied by the correspondence check; the rest of L0 "
                 "(BitSetBuilder's page cache, binary searches, the per-u64-element loops of BitPage, range-iterator state machines) is tied "
                 "by the correspondence check only. Indexing in the L0 model is totalised: index panics are not modelled at that layer. "
                 "Tested only (shadow oracle on the implementation): Hash agreement, discontinuous domains, mixed-direction iteration."),
@@ -44,11 +44,11 @@ SPEC = dict(
               "read-fonts/src/collections/int_set/bitset.rs: BitSet insert/remove/insert_range/remove_range/remove_all/extend/extend_unsorted/contains/len/clear/iter/iter_after/iter_ranges/process(union,intersect,subtract,reversed_subtract)/Eq/Ord (sorted major->page list + cached length)",
               "read-fonts/src/collections/int_set/mod.rs: Membership, IntSet insert/remove/insert_range/remove_range/extend/extend_unsorted/remove_all/union/intersect/subtract/invert/clear/contains/len/is_empty/iter/iter_after/iter_ranges/iter_excluded_ranges/first/last/intersects_range/intersects_set/Eq/Ord/is_inverted for continuous domains (all seven Domain impls: u32, u16, u8, GlyphId16, NameId, GlyphId, Tag - the case carries dmax)",
               "read-fonts/src/collections/range_set.rs: RangeSet insert/extend/FromIterator/iter/intersection, OrdAdjacency for u32/u16",
-              "read-fonts/src/collections/int_set/bitset.rs (L0): process (steps 1-4), compact, compact_pages, resize, passthrough_behavior over (pages, page_map) — coq/C14/SetL0.v"],
+              "read-fonts/src/collections/int_set/bitset.rs (L0): process (steps 1-4), compact, compact_pages, resize, passthrough_behavior over (pages, page_map) — coq/C14/SetL0.v; proofs SetL0Proofs.v (steps 3-4, passthrough_left) and ProcessNP.v (step-1 front compaction, compact, !passthrough_left, Inv0 preservation)"],
     not_covered=[
                  "discontinuous Domain implementations (Even, TwoIntervals in the harness): implementation-only BTreeSet shadow oracle, not in the Coq model",
                  "Hash (equal sets hash equally; rebuild in the same/opposite mode hashes equally), mixed-direction iteration on one iterator, inclusive_iter, RangeSet<u16>: implementation-only oracle",
-                 "process_L0_refines_L1 is partial: unbounded for steps 3-4 (all operators) and end to end for passthrough_left operators (union, subtract); for intersect / reversed_subtract the step-1 front compaction and compact() are covered only by the bounded-exhaustive theorem (all states over 3 majors); Inv0 preservation by process0 not proved",
+                 "process_L0_refines_L1 is proved for all operators and Inv0 is preserved (round 7), but the L0 model of process (SetL0.v) totalises indexing (nth default / set_nth no-op): index panics of the in-place code are not modelled at L0 (the proved invariants imply in-range access; panics are observed on the real code by the harness), and L0 itself is tied to bitset.rs by reading only - the correspondence check compares L1",
                  "other L0 details (BitSetBuilder cache, binary searches, per-element loops of BitPage, RangeIter state machines): correspondence only",
                  "serde impls, Display/Debug"],
     assumptions=["element domain is continuous [0, dmax] with dmax < 2^32 (u32, u16, u8, GlyphId, GlyphId16, Tag, NameId and custom continuous domains)",
